@@ -1041,6 +1041,11 @@ void run_c16_api(Judge& j, uint64_t n) {
                 case 2: {   // publish: payload declared as UTF-8
                     a.kind = Action::publish; a.qos = 0; a.topic = "ok/utf8"; a.payload = s;
                     ref::Prop p; p.id = 0x01; p.num = 1; a.props.push_back(p);
+                    if (rng.chance(1, 6)) {   // Payload Format Indicator is 0 or 1
+                        a.props.back().num = rng.pick(std::vector<uint64_t>{2, 3, 255}); a.payload = "plain";
+                        a.expect_immediate = true; a.expect_ec = 100;
+                        break;
+                    }
                     auto cls = ref::utf8_class(s);
                     if (s.size() > 65535) continue;   // don't-care: the 65535 limit of UTF-8 *strings* applied to a payload
                     if (cls == ref::Utf8::ill_formed) { a.expect_immediate = true; a.expect_ec = 100; }
@@ -1066,15 +1071,17 @@ void run_c16_api(Judge& j, uint64_t n) {
                     ref::Prop p; p.id = 0x0B; p.num = rng.pick(std::vector<uint64_t>{0, 1, 2, 268435454, 268435455, 268435456, 2147483647});
                     a.props.push_back(p);
                     bool ok = p.num >= 1 && p.num <= 268435455;
+                    // a SUBSCRIBE carries at most one Subscription Identifier [MQTT 3.8.2.1.2]; the property type of the API can hold several
+                    if (rng.chance(1, 4)) { ref::Prop q; q.id = 0x0B; q.num = rng.pick(std::vector<uint64_t>{0, 7, 268435456}); a.props.push_back(q); ok = false; }
                     a.expect_immediate = !ok; a.expect_ec = ok ? 0 : 100;
                     break;
                 }
-                case 6: {   // unsubscribe: filters ($share forms are don't-care there)
-                    if (s.rfind("$share", 0) == 0) continue;
+                case 6: {   // unsubscribe: filters, plain and $share forms alike
+                    if (rng.chance(1, 4)) s = "$share/" + compose();
                     a.kind = Action::unsubscribe;
                     int nf = (int)rng.range(1, 3), pos = (int)rng.below(nf);
                     for (int f = 0; f < nf; ++f) a.subs.emplace_back(f == pos ? s : std::string("ok/") + char('a' + f), 0);
-                    bool ok = ref::topic_filter_ok(s);
+                    bool ok = s.rfind("$share/", 0) == 0 ? ref::shared_filter_ok(s) : ref::topic_filter_ok(s);
                     a.expect_immediate = !ok; a.expect_ec = ok ? 0 : 104;
                     break;
                 }
